@@ -827,6 +827,20 @@ func (e *Env) evalCall(n ECall, hint types.Type) TV {
 		ms := vc.mapSort(mt)
 		obj := fmt.Sprintf("(select %s %s)", e.st.get(vc.mapHeapVar(mt)), m.term)
 		return TV{term: and(not(eq(m.term, "0")), fmt.Sprintf("(select (%s_keys %s) %s)", ms, obj, k.term)), typ: bt}
+	case "visited":
+		// visited(n, k): key k was already produced by the n-th map range statement of the function
+		lit, ok := n.Args[0].(ENum)
+		ord := 0
+		if !ok || e.fr == nil {
+			e.fail("visited(n, k): n must be a literal ordinal")
+		}
+		fmt.Sscan(lit.Text, &ord)
+		name, kt := e.fr.top().visitedByOrdinal(ord)
+		if name == "" {
+			e.fail("visited(%d, ...): no such map range statement", ord)
+		}
+		k := e.coerce(e.eval(n.Args[1], kt), kt)
+		return TV{term: fmt.Sprintf("(select %s %s)", e.st.get(name), k.term), typ: bt}
 	case "mapobj":
 		// the whole map value (keys+vals+size) for equality/frame statements
 		m := e.eval(n.Args[0], nil)
